@@ -261,7 +261,7 @@ fn cmd_check(env: &Env, prop: Prop, args: &[String]) -> i32 {
                         if fp_log.is_some() {
                             local_fps.push((i, scn_fp));
                         }
-                        if i < 3 {
+                        if i < 400 {
                             // a written-out sample: the scenario and its keep-going history
                             let cfg = RunCfg {
                                 script: Script::AllC,
@@ -272,6 +272,7 @@ fn cmd_check(env: &Env, prop: Prop, args: &[String]) -> i32 {
                                 err: ErrParty::Sim,
                             };
                             let r = run(&env.runners[scn.program], &scn.doc, &cfg);
+                            if i < 2 || r.events.len() >= 6 {
                             st.samples.push(serde_json::json!({
                                 "run_index": i,
                                 "program": scn.program_name,
@@ -283,8 +284,10 @@ fn cmd_check(env: &Env, prop: Prop, args: &[String]) -> i32 {
                                 "random_answer_script": scn.script.to_json(),
                                 "simulated_calls_made_for_this_scenario": st.runs - runs_before,
                                 "keep_going_history": r.events.iter().take(16).map(|e| e.render()).collect::<Vec<_>>(),
+                                "keep_going_events": r.events.len(),
                                 "keep_going_outcome": r.outcome.render(),
                             }));
+                            }
                         }
                         if !found.is_empty() {
                             violations.lock().unwrap().push((i, scn, found));
@@ -304,6 +307,22 @@ fn cmd_check(env: &Env, prop: Prop, args: &[String]) -> i32 {
     let mut violations = violations.into_inner().unwrap();
     violations.sort_by_key(|v| v.0);
     stats.samples.sort_by_key(|s| s.get("run_index").and_then(|x| x.as_u64()).unwrap_or(0));
+    // keep the first two scenarios and the first three with a longer history
+    {
+        let mut kept: Vec<serde_json::Value> = vec![];
+        let mut rich = 0;
+        for smp in stats.samples.drain(..) {
+            let idx = smp.get("run_index").and_then(|x| x.as_u64()).unwrap_or(0);
+            let n = smp.get("keep_going_events").and_then(|x| x.as_u64()).unwrap_or(0);
+            if idx < 2 {
+                kept.push(smp);
+            } else if n >= 6 && rich < 3 {
+                rich += 1;
+                kept.push(smp);
+            }
+        }
+        stats.samples = kept;
+    }
 
     if let Some(path) = fp_log {
         let mut v = fps.into_inner().unwrap();
